@@ -131,7 +131,7 @@ def scan_forbidden(modules):
     return hits
 
 
-DECL_RE = re.compile(r'^(?:@\[[^\]]*\]\s*)?(?:private\s+|protected\s+)?(theorem|example|lemma)\s+([^\s:({\[]+)?', re.M)
+DECL_RE = re.compile(r'^(?:@\[[^\]]*\]\s*)?(private\s+|protected\s+)?(theorem|example|lemma)\s+([^\s:({\[]+)?', re.M)
 
 
 def obligations_of(props_module):
@@ -152,7 +152,9 @@ def obligations_of(props_module):
             continue
         m = DECL_RE.match(line)
         if m:
-            kind, name = m.group(1), m.group(2)
+            kind, name = m.group(2), m.group(3)
+            if m.group(1) and m.group(1).strip() == 'private':
+                continue        # private helper lemma: checked by the build, its axioms show up in its users
             if kind == 'example' or not name:
                 ex += 1
                 obs.append({'kind': 'example', 'name': 'example#%d' % ex, 'line': line_no})
